@@ -2,6 +2,8 @@
 import z3, time
 from .values import PyRaise, NeedFork, Unsupported, SBool, zbool
 
+import os
+_DEBUG = bool(os.environ.get('VERIF_DEBUG_BRANCH'))
 FEAS_TIMEOUT_MS = 20000
 FEAS_RLIMIT = 3000000  # deterministic resource limit: verdicts of in-process feasibility checks must not depend on load
 
@@ -53,6 +55,7 @@ class Ctx:
         self.solver = z3.Solver()
         self.solver.set('timeout', FEAS_TIMEOUT_MS)
         self.solver.set('rlimit', FEAS_RLIMIT)
+        self.solver.set('smt.mbqi', False)  # feasibility pruning uses E-matching only: bounded effort, `unknown` counts as feasible
         self.pure = 0
         self.pure_extra = []
         self.counter = {}
@@ -156,6 +159,8 @@ class Ctx:
         else:
             ft = self.feasible(cond)
             ff = self.feasible(z3.Not(cond))
+            if _DEBUG:
+                print('    branch#%d %s -> true:%s false:%s' % (idx, str(cond)[:100].replace('\n', ' '), ft, ff))
             if ft and ff:
                 choice = True
                 self.pending.append(self.trace[:idx] + [False])
